@@ -142,9 +142,15 @@ impl TKey {
         TKey { id, serial: fresh(true) }
     }
 }
+/// (lruliar slice, op 95) while set, `TKey::clone` maps the keys 2i and 2i+1 to the same key: a `Clone` that does not
+/// preserve distinctness (a key that resets a revision field when cloned), in safe code
+pub static CLONE_MERGE: std::sync::atomic::AtomicBool = std::sync::atomic::AtomicBool::new(false);
 impl Clone for TKey {
     fn clone(&self) -> Self {
         user_call(3);
+        if CLONE_MERGE.load(std::sync::atomic::Ordering::Relaxed) {
+            return TKey::new(self.id & !1);
+        }
         TKey::new(self.id)
     }
 }
